@@ -2,3 +2,6 @@ NOT_YET = {}
 add("C14", "exploration", "runtime monitoring: independent grammar/value oracles over exhaustively enumerated short strings, single-edit near misses and random domain values",
     "Read/Write of every FIX value type is executed on all strings of length<=6 over a near-miss alphabet (int, float), all 1-2 byte strings (boolean), every single edit of canonical timestamps, and millions of random domain values; an independent recogniser and independent arithmetic decide each result. Held-on-what-was-run, exhaustive on the listed sub-spaces.",
     "DESIGN.md §4 C14")
+add("C10", "exploration", "runtime monitoring: reference field-set model stepped alongside the real FieldMap/Message API; independent wire scanner, parse-back and copy comparison on every build",
+    "Random and bounded-exhaustive programs of field-map operations are executed on real Message objects; after every build the bytes are scanned by an independent codec and compared with a reference model of the currently set fields, re-parsed and re-read through the getters, and copies are compared byte for byte.",
+    "DESIGN.md §4 C10")
